@@ -53,15 +53,15 @@ Resync(c, e, s2) ==
                        !.cnt   = IF c.kind \in CntKinds
                                  THEN [x \in Keys |-> IF x \in sk THEN s2.cnt[x] ELSE oc[x]]
                                  ELSE s2.cnt,
-                       !.size  = IF e.size >= 0 THEN e.size ELSE s2.size]
+                       \* size2: size() read once more after the projection (its lookups may reap)
+                       !.size  = IF e.size2 >= 0 THEN e.size2 ELSE s2.size]
   IN NormUnr(Repair(c, s3))
 
-(* size() on a line without a call of its own (clock step, pure observation).  The only calls *)
-(* since the previous line are the projection's side-effect-free lookups, which on tlru/utlru   *)
-(* may have discarded expired entries (an implementation is free to reap on any call).          *)
-ProjSize(c, s, e) ==
-  e.size >= 0 =>
-     IF c.kind \in TtlCaches THEN NLive(s) <= e.size /\ e.size <= s.size ELSE e.size = s.size
+(* size() on a line without a call of its own (clock step, pure observation): unchanged.  The   *)
+(* projection's own lookups may reap on tlru/utlru (an implementation is free to reap on any     *)
+(* call); the log therefore carries size() once more after the projection (size2), which is what *)
+(* the state is resynchronised to.                                                               *)
+ProjSize(c, s, e) == e.size >= 0 => e.size = s.size
 
 (* Checks every call shares: the projection equals the expected state.     *)
 ValuesEq(e, s2) == \A x \in Probed(e) : ObsV(e)[x] = s2.store[x]
@@ -70,7 +70,8 @@ CntEq(c, e, s2) == c.kind \in CntKinds =>
                       \A x \in Probed(e) : (s2.store[x] # None => ObsC(e)[x] = s2.cnt[x])
 Observers(c, e) ==
   JJ({"C02"}, e.size >= 0 => (/\ (e.empty = 1) = (e.size = 0)
-                              /\ c.kind \in CacheKinds => e.cap = c.cap))
+                              /\ c.kind \in CacheKinds => e.cap = c.cap
+                              /\ e.size2 <= e.size))       \* the projection can only discard
 
 -----------------------------------------------------------------------------
 (* A live key that the projection could not probe (the harness cannot rule out that it  *)
@@ -194,7 +195,7 @@ TrObs(c, t, s, e) ==
 \* The observers as calls (concurrent logs).  They change nothing and (on ut_map / ut_set) do not
 \* purge: what they return is the size before the projection's own lookups ran.
 TrObserver(c, t, s, e) ==
-  LET lo == IF c.kind \in TtlCaches THEN NLive(s) ELSE s.size     \* earlier probes may have reaped
+  LET lo == s.size
       hi == s.size IN
   /\ JJ({"C02", "C06"}, CASE e.op = "size"     -> lo <= e.ret /\ e.ret <= hi
                           [] e.op = "empty"    -> (e.ret = 1 => lo = 0) /\ (e.ret = 0 => hi > 0)
